@@ -18,7 +18,7 @@ import (
 func init() {
 	fw.Register(&fw.Check{
 		ID: "C13", Level: "model_checking",
-		Rule: "(a) ALL ordered selections of 1..2 (quick) / 1..3 (thorough) paths from {/a, /a/{id}, /a/{id}/b, /a/{id}/b/{n}, /{id}, /{id}/{n}, /b/{n}} x form {path-bearing method, URL block with the Path at URL level, URL block with the Path at method level} x every subset of each path's parameters declared by its Path directive (inline object, reference to an object type, alias chain of 2..3 references; types declared before / after the use): expected verdict (a prefix declared twice => rejected) and expected pathVariables of every interaction (exactly the declared segments, in path order, with the declared example value) from the reference binding; (b) faulty variants (property matching no segment, {} and repeated {name}, nested object / array property, reference to a scalar or undefined type, additionalProperties / nullable / or rules, empty object): rejected; (c) the path-parameter splitter against the reference on ALL strings of length <= 7 (quick) / 8 (thorough) over {/ { } a}; non-trivial = project with at least one declared parameter; distinct = distinct documents / strings",
+		Rule: "(a) ALL ordered selections of 1..2 (quick) / 1..3 (thorough) paths from {/a, /a/{id}, /a/{id}/b, /a/{id}/b/{n}, /{id}, /{id}/{n}, /b/{n}} x form {path-bearing method, URL block with the Path at URL level, URL block with the Path at method level} x every subset of each path's parameters declared by its Path directive (inline object, reference to an object type, alias chain of 2..3 references; types declared before / after the use) x schema of the declared parameters {integer / string literal, reference to an integer / string type, float literal with a type rule}: expected verdict (a prefix declared twice => rejected) and expected pathVariables of every interaction (exactly the declared segments, in path order, with the declared example value) from the reference binding; (b) faulty variants (property matching no segment, {} and repeated {name}, nested object / array property, reference to a scalar or undefined type, additionalProperties / nullable / or rules, empty object): rejected; (c) the path-parameter splitter against the reference on ALL strings of length <= 7 (quick) / 8 (thorough) over {/ { } a}; non-trivial = project with at least one declared parameter; distinct = distinct documents / strings",
 		Run:  runC13, QuickCap: 8 * time.Minute, ThoroughCap: 40 * time.Minute,
 	})
 }
@@ -63,6 +63,7 @@ func runC13(c *fw.Ctx) {
 		subset int // bit mask over the path's parameters
 		refDepth   int  // 0 inline object, 1 reference to an object type, 2..3 reference to a type that is itself a reference (alias chain)
 		typesAfter bool // the referenced types are declared after the interaction
+		valForm    int  // schema of each declared parameter: 0 integer literal, 1 string literal, 2 reference to an integer type, 3 float literal with a type rule naming a float type, 4 reference to a string type
 	}
 	var sel []item
 	valueOf := func(itemIdx, paramIdx int) int { return 100*(itemIdx+1) + paramIdx + 1 }
@@ -75,7 +76,8 @@ func runC13(c *fw.Ctx) {
 		n := doc.N
 		nodes := []*doc.Node{doc.Jsight()}
 		var trailing []*doc.Node
-		declared := map[string]int{} // prefix -> value
+		declared := map[string]string{} // prefix -> expected scalar value
+		usesValTypes := false
 		dupl := false
 		anyDecl := false
 		for i, it := range sel {
@@ -83,17 +85,44 @@ func runC13(c *fw.Ctx) {
 			var props []string
 			for k, p := range pp {
 				if it.subset&(1<<uint(k)) != 0 {
-					props = append(props, fmt.Sprintf("  \"%s\": %d", p.name, valueOf(i, k)))
+					var src, want string
+					switch it.valForm {
+					case 0:
+						src = fmt.Sprint(valueOf(i, k))
+						want = src
+					case 1:
+						want = fmt.Sprintf("s%d", valueOf(i, k))
+						src = "\"" + want + "\""
+					case 2:
+						src, want = "@vint", "@vint"
+						usesValTypes = true
+					case 3:
+						src, want = "2.5 // {type: \"@vflt\"}", "2.5"
+						usesValTypes = true
+					case 4:
+						src, want = "@vstr", "@vstr"
+						usesValTypes = true
+					}
+					props = append(props, fmt.Sprintf("  \"%s\": %s", p.name, src))
 					if _, ok := declared[p.prefix]; ok {
 						dupl = true
 					}
-					declared[p.prefix] = valueOf(i, k)
+					declared[p.prefix] = want
 					anyDecl = true
 				}
 			}
 			var pathNode *doc.Node
 			if len(props) > 0 {
-				body := "{\n" + strings.Join(props, ",\n") + "\n}"
+				for pi := range props {
+					if pi < len(props)-1 {
+						if ci := strings.Index(props[pi], " //"); ci >= 0 {
+							props[pi] = props[pi][:ci] + "," + props[pi][ci:] // the comma goes before the rule comment
+						} else {
+							props[pi] += ","
+						}
+					}
+				}
+				body := "{\n" + strings.Join(props, "\n") + "\n}"
 				if it.refDepth > 0 {
 					var tt []*doc.Node
 					for d := 1; d <= it.refDepth; d++ {
@@ -138,6 +167,9 @@ func runC13(c *fw.Ctx) {
 				nodes = append(nodes, u)
 			}
 		}
+		if usesValTypes {
+			nodes = append(nodes, n("TYPE", "@vint").WithBody("12 // {min: 1}"), n("TYPE", "@vflt").WithBody("1.5"), n("TYPE", "@vstr").WithBody("\"str\""))
+		}
 		nodes = append(nodes, trailing...)
 		text := doc.Text(nodes)
 		label := fmt.Sprint(sel)
@@ -177,7 +209,7 @@ func runC13(c *fw.Ctx) {
 			var want []string
 			for _, p := range pp {
 				if v, ok := declared[p.prefix]; ok {
-					want = append(want, fmt.Sprintf("%s=%d", p.name, v))
+					want = append(want, fmt.Sprintf("%s=%s", p.name, v))
 				}
 			}
 			var got []string
@@ -228,9 +260,14 @@ func runC13(c *fw.Ctx) {
 							if refDepth > 0 && subset == 0 || refDepth == 0 && after {
 								continue
 							}
-							sel = append(sel, item{p, form, subset, refDepth, after})
-							rec(k - 1)
-							sel = sel[:len(sel)-1]
+							for valForm := 0; valForm <= 4; valForm++ {
+								if valForm > 0 && (subset == 0 || len(sel) > 0) {
+									continue // the forms vary on the first path of a selection
+								}
+								sel = append(sel, item{p, form, subset, refDepth, after, valForm})
+								rec(k - 1)
+								sel = sel[:len(sel)-1]
+							}
 						}
 					}
 				}
